@@ -5,6 +5,7 @@ import random
 
 import cluster
 import common
+import datapath
 import nuncluster
 import render
 
@@ -36,7 +37,7 @@ def build_case(cid, nodes, body, seed, policy, interleave=False, strategy="none"
     ops = cluster.setup_ops(nodes, strategy=strategy) + body
     return {"id": cid, "nodes": nodes, "pids": [100 + 10 * i for i in range(len(nodes))],
             "formation": "direct", "policy": policy, "seed": seed, "interleave": interleave, "ops": ops,
-            "budget": 4000}
+            "budget": 4000, "strategy": strategy}
 
 
 def cases_for(tier, seed):
@@ -156,11 +157,16 @@ def run(tier, seed, prop=PROP, checks=CHECKS):
     wd = common.workdir(prop)
     devs, known = common.load_findings(prop)
     cases = model_part(tier, seed, wd, res) + cases_for(tier, seed)
+    for c in cases:
+        c["trace_state"] = True
+        c["trace_data"] = True
     raws = common.run_cases_parallel("cluster", cases, wd, procs=12, timeout=3000,
                                      env={"NUN_ELECTION_TIMEOUT": "10"})
     norm_path = os.path.join(wd, "norm.ndjson")
     cluster.normalize(raws, norm_path)
     res.coverage.update(schedule_stats(raws))
+    # implementation -> spec: every run within the model's vocabulary follows NunCluster step by step
+    res.coverage.update(datapath.check(raws, {c["id"]: c for c in cases}, wd))
     out = common.validate_into(res, norm_path, "Trace_Cluster.tla", "Trace_Cluster.cfg", checks, devs,
                                "/dev/null", wd, {c["id"]: c for c in cases})
     res.coverage.update({
